@@ -74,9 +74,10 @@ def usq (ops : List String) : String :=
       | op :: r => let (st1, o) := Usq.step st op false; go st1 r (usqTok op o :: acc)
     String.intercalate " " (go Usq.init ops [])
 
-/-! ### alias:  c<t>.<index>=<alias> add   d<t>.<index>=<alias> remove   g<t>.<index>   l<t>   q<t>.<alias> resolve   R -/
+/-! ### alias:  c<t>.<index>=<alias> add   d<t>.<index>=<alias> remove   g<t>.<index>   l<t>   q<t>.<alias> resolve   R   G (graceful shutdown + restart) -/
 def aliasOp? (s : String) : Option Alias.Op :=
   if s = "R" then some .restart else
+  if s = "G" then some .graceful else
   match s.toList with
   | 'l' :: c :: [] => (tenant? c).map .list
   | o :: r =>
@@ -104,6 +105,7 @@ def aliasTok : Alias.Out → String
     | [i] => showKey i
     | _ => "*"
   | .restarted => "R"
+  | .gracefulRestarted => "G"
 
 def alias (ops : List String) : String :=
   match ops.mapM aliasOp? with
